@@ -248,7 +248,7 @@ pub fn check_in(f: &F, names: &Names, g: &SymbolicAsyncGraph, outer: &HashMap<St
         }
         // the same substitution through the multi-formula entry point, as a list [rewritten, original, True] (three
         // trees of different heights): every position must carry the answer of ITS formula
-        if first_case && (f.size() <= 2 || (f.qdepth() >= 2 && f.size() >= 9)) {
+        if first_case && (f.size() <= 2 || (f.qdepth() >= 2 && f.size() >= 9 && text.len() % 5 == 0)) {
             // (small formulae and the larger templates) ... and with the pre-computed results travelling through a result archive (written with build_result_archive, read
             // back with load_bdd_bundle - the tool's `-o` then `-e` workflow) before they are substituted
             n += 1;
@@ -574,6 +574,17 @@ pub fn run(tier: &str) -> Result<Report, String> {
             fs.extend(g.closed_up_to(if tier == "quick" { 3 } else { 4 }).into_iter().filter(|f| f.uses_wild_or_dom()));
             if tier != "quick" || desc == fams[0].0 {
                 fs.extend(crate::formulas::restricted_scope_duplicates(&ctx.user));
+            }
+            // a closed sub-formula WITH a quantifier of its own next to a state variable, once outside and once inside a restricted
+            // scope under another variable name: substituting it turns a two-variable sub-formula (never shared) into a
+            // one-variable one (shared and renamed on the cache hit)
+            for psi in ["(!{z}: AX {z})", "(3{z}: @{z}: a)", "(V{z}: (a | EF {z}))"] {
+                for q in ["3", "V", "!"] {
+                    for glue in ["&", "|"] {
+                        fs.push(crate::formulas::f(&format!("(3{{x}}: @{{x}}: ({{x}} & {psi})) {glue} ({q}{{x}} in %d%: 3{{y}}: @{{y}}: (({{y}} & {psi}) & a))"), &ctx.user));
+                        fs.push(crate::formulas::f(&format!("({q}{{x}} in %d%: 3{{y}}: @{{y}}: (({{y}} & {psi}) | a)) {glue} (!{{x}}: ({{x}} & {psi}))"), &ctx.user));
+                    }
+                }
             }
             if ctx.b.n >= 2 {
                 let pool: Vec<F> = collision_alphabet(&ctx.user).into_iter().take(if tier == "quick" { 8 } else { 16 }).collect();
